@@ -894,6 +894,10 @@ def _resolve_action_conflicts(
             for head in ordered_heads:
                 if head == picked_head:
                     continue
+                if not is_active_flow(get_flow_state_from_head(state, head)):
+                    # The flow was aborted together with a flow that lost the conflict above
+                    # (e.g. as its child flow): it neither shares the winning action nor loses again
+                    continue
                 competing_element = get_flow_config_from_head(state, head).elements[
                     head.position
                 ]
